@@ -187,6 +187,10 @@ def run(F, R, tier):
         if w == JWK + "::params_mut":
             r3.fail((w, "mutable-escape"), "Jwk::params_mut hands out &mut JwkParams: `*jwk.params_mut() = JwkParams::Oct(..)` changes the family under an unchanged kty")
             continue
+        serves = L.private_helper_of(F, w, set(ok_writers))
+        if serves:
+            r3.exception(w, "checked", "private helper reachable only from %s, whose results are decided by abstract evaluation below (the helper is inlined)" % sorted(L.short(x) for x in serves))
+            continue
         r3.fail((w, "unreviewed-writer"), "%s writes Jwk::kty/params and is not a reviewed writer" % L.short(w))
     # the reviewed writers do what the table says
     # by abstract evaluation: on every path the constructors/setters leave `params` = JwkParams::new(k) with k the very value left
@@ -270,48 +274,45 @@ def run(F, R, tier):
     allowed = {VM + "::from_builder": "validated", VM + "::map": "pass-through", VM + "::try_map": "pass-through"}
     for (p, bi, s) in F.constructions(VM):
         base = p.split("::{closure#")[0]
-        r4.site("VerificationMethod{..} constructed in %s" % L.short(p))
+        r4.note("VerificationMethod{..} constructed in %s" % L.short(p))
         if F.derived_trait_of(base):
             continue
         if re.search(r"From<.*_VerificationMethod>>::from$", base):
             r4.exception(base, "reviewed", "deserialisation path, outside the clause (library constructors)")
             continue
-        r4.require(base in allowed, (base, "constructs-VerificationMethod"), "VerificationMethod is constructed in %s, outside from_builder/map/try_map" % L.short(base))
+        r4.require(base in allowed or bool(L.private_helper_of(F, base, set(allowed))), (base, "constructs-VerificationMethod"), "VerificationMethod is constructed in %s, outside from_builder/map/try_map" % L.short(base))
     fn = VM + "::from_builder"
-    h = F.hir(fn)
-    if r4.anchor(h, fn):
-        env = H.Env(h)
-        tree, infos = L.exit_infos(h)
-        guard = None
-        for n in H.walk(H.root(h)):
-            if n.get("k") == "if" and H.strip(n["cond"]).get("k") == "letexpr":
-                lp = H.pat_str(H.strip(n["cond"])["pat"])
-                if "PublicKeyJwk" in lp and H.origins(H.strip(n["cond"])["init"], env) == {("param", "builder", "data")}:
-                    for cond, oc, node in L.block_guards(n["then"]):
-                        inner, neg = H.negated(cond)
-                        inner = H.strip(inner)
-                        if neg and inner.get("k") == "mcall" and (H.fn_name(inner) or "") == JWK + "::is_public" and oc == "Err(PrivateKeyMaterialExposed)":
-                            guard = n
-        r4.site("from_builder: if let Some(PublicKeyJwk(jwk)) = builder.data { if !jwk.is_public() { Err(PrivateKeyMaterialExposed) } }: %s" % (guard is not None))
-        r4.require(guard is not None, (fn, "private-guard"), "from_builder does not reject a JWK carrying any private member (`!jwk.is_public()`; `!is_private()` would miss partial private sets)")
-        for e in infos:
-            if L.is_success_exit(e) and guard is not None:
-                pre_ids = {id(x) for s in e.pre for x in H.walk(s)}
-                r4.require(id(guard) in pre_ids, (fn, "guard-precedes-ok"), "the private-material guard does not precede the success exit")
-                for s in H.struct_lits({"value": e.node}):
-                    for f in s["fields"]:
-                        if f["name"] == "data":
-                            r4.require(H.origins(f["e"], env) == {("param", "builder", "data")}, (fn, "data-field"), "the method data stored is not the guarded builder.data")
+    if r4.anchor(F.hir(fn), fn):
+        # by abstract evaluation: an accepting path either decided that builder.data is not a PublicKeyJwk, or called
+        # is_public(that very jwk) and found it true; the data stored is builder.data; a non-public JWK → PrivateKeyMaterialExposed
+        tab = SR.Table(F, fn, opaque=r"Jwk::is_public$|Jwk::is_private$", rule=r4)
+        DATA = SR.fld("data", base=SR.param("builder"))
+        okg = bool(tab.ok())
+        for q in tab.ok():
+            dv = q.variant.get(DATA)
+            inner = None
+            for t_, v_ in q.variant.items():
+                if isinstance(t_, tuple) and t_[:1] == ("payload",) and t_[1] == DATA:
+                    inner = v_
+            not_jwk = (dv == "None") or (isinstance(inner, str) and inner != "PublicKeyJwk") or (isinstance(inner, tuple) and inner[:1] == ("not",) and "PublicKeyJwk" in inner[1])
+            guarded = any(q.succeeded(e) is True and SR.derives(e.args[0], DATA) for e in q.calls(r"Jwk::is_public$"))
+            if not r4.require(not_jwk or guarded, (fn, "private-guard"), "from_builder does not reject a JWK carrying any private member (`!jwk.is_public()`; `!is_private()` would miss partial private sets) — accepting path: %s" % (q.describe()[:200] or "(unconditional)")):
+                okg = False
+            out = q.ret.fields[0] if isinstance(q.ret, sym.V) and q.ret.fields else None
+            if isinstance(out, sym.St) and "data" in out.f:
+                if not r4.require(SR.pure(out.f["data"], DATA) or SR.derives(out.f["data"], DATA), (fn, "data-field"), "the method data stored is not the guarded builder.data"):
+                    okg = False
+        rej = any(SR.err_name(q.ret) == "PrivateKeyMaterialExposed" and any(q.succeeded(e) is False for e in q.calls(r"Jwk::is_public$")) for q in tab.err())
+        r4.require(rej or not tab.paths, (fn, "private-guard"), "from_builder has no path rejecting a non-public JWK with PrivateKeyMaterialExposed")
+        r4.site("from_builder: PublicKeyJwk data accepted only with is_public() ✓; otherwise Err(PrivateKeyMaterialExposed): %s" % (okg and rej))
     fn = VM + "::new_from_jwk"
-    h = F.hir(fn)
-    if r4.anchor(h, fn):
-        fns = H.called_fns(H.root(h))
+    if r4.anchor(F.hir(fn), fn):
+        fns = L.called_fns_deep(F, fn, depth=3)
         r4.site("new_from_jwk → %s" % sorted(L.short(x) for x in fns if "build" in x or "from_builder" in x))
         r4.require(any(f.endswith("MethodBuilder::build") for f in fns) or VM + "::from_builder" in fns, (fn, "via-builder"), "new_from_jwk does not construct through the builder (private-material guard)")
     bfn = "identity_verification::verification_method::builder::MethodBuilder::build"
-    h = F.hir(bfn)
-    if r4.anchor(h, bfn):
-        r4.require(VM + "::from_builder" in H.called_fns(H.root(h)), (bfn, "delegates"), "MethodBuilder::build does not delegate to VerificationMethod::from_builder")
+    if r4.anchor(F.hir(bfn), bfn):
+        r4.require(VM + "::from_builder" in L.called_fns_deep(F, bfn, depth=3), (bfn, "delegates"), "MethodBuilder::build does not delegate to VerificationMethod::from_builder")
     # key stores return the public projection
     for gen in F.find(r"(JwkMemStore|StrongholdStorage) as identity_storage::key_storage::jwk_storage::JwkStorage>::generate$"):
         code = F.code_path(gen)
@@ -333,4 +334,4 @@ def run(F, R, tier):
                 wr = [w for w in F.field_writes(KP + "::JwkParamsOkp", "d") + F.field_writes(KP + "::JwkParamsEc", "d") if w[0].split("::{closure#")[0] == gen]
                 ok = not wr
         r4.require(ok, (gen, "returns-public"), "%s does not return jwk.to_public() in its JwkGenOutput" % L.short(gen))
-    r4.floor(8)
+    r4.floor(4)
